@@ -1669,18 +1669,42 @@ def split_model_cases(gen):
             yield c
 
 
+# the KIND of outcome each known finding records: a tag set from the input class survives only when the implementation
+# showed exactly that outcome (and no implementation-side check failed); anything else on the same input is reported
+EXPECTED_OUTCOME = {
+    'C19-key-order-within': ('ok',),                               # a result, in the wrong order (M models which)
+    'C19-key-order-revisit': ('raises:ErrorInitIndex',),
+    'C19-empty-selection': ('raises:UnboundLocalError',),          # 'raises:RuntimeError' on the array route, see narrow()
+    'C19-empty-member': ('raises:ErrorInitIndex',),
+    'C19-iter-cross-axis': ('raises:NotImplementedError',),
+    'C19-batch-series-kwargs': ('raises:TypeError', 'raises:AttributeError'),
+    'C19-export-empty-result': ('raises:ErrorInitIndex',),
+    'C19-empty-opposite-selection': ('raises:ErrorInitTypeBlocks',),
+}
+
+
+def narrow(gen):
+    for c in gen:
+        f = c.tags.get('finding')
+        if f:
+            obs = c.desc.get('observed')
+            outcome = ('raises:' + str(obs['error'])) if isinstance(obs, dict) and 'error' in obs else 'ok'
+            want = EXPECTED_OUTCOME[f]
+            if f == 'C19-empty-selection' and (c.tags.get('as_array') or c.tags.get('op') == '_extract_array'):
+                want = ('raises:RuntimeError',)
+            if outcome not in want or c.py_fail:
+                c.tags = {k: v for k, v in c.tags.items() if k != 'finding'}
+                c.tags['finding_not_applied'] = f
+            else:
+                c.tags['outcome'] = outcome
+        yield c
+
+
 def cases(ctx):
-    yield from split_model_cases(iloc_cases(ctx))
-    yield from split_model_cases(labels_cases(ctx))
-    yield from split_model_cases(loc_cases(ctx))
-    yield from split_model_cases(falsy_loc_cases(ctx))
-    yield from split_model_cases(iter_cases(ctx))
-    yield from split_model_cases(window_cases(ctx))
-    yield from split_model_cases(store_cases(ctx))
-    yield from split_model_cases(from_frame_cases(ctx))
-    yield from split_model_cases(extract_array_cases(ctx))
+    for stratum in (iloc_cases, labels_cases, loc_cases, falsy_loc_cases, iter_cases, window_cases, store_cases, from_frame_cases,
+                    extract_array_cases, batch_cases):
+        yield from split_model_cases(narrow(stratum(ctx)))
     yield from meta_cases(ctx)
     yield from iter_apply_cases(ctx)
     yield from malformed_cases(ctx)
-    yield from batch_cases(ctx)
     yield from batch_meta_cases(ctx)
